@@ -5,6 +5,9 @@ VERIF = os.path.dirname(os.path.dirname(os.path.abspath(__file__)))
 props = {json.loads(l)["id"]: json.loads(l) for l in open(os.path.join(VERIF, "properties.jsonl"))}
 
 CHECKS = {
+ "C08": dict(cat="exploration", technique="fault injection over generated histories: crash (panic from the write hook) before the k-th storage write, restart from the same store, model-based comparison with the reference index; failures reproduced by a crash at the handler's boundaries are not attributed to the torn operation",
+   text="Generated sync histories (first start, set_scripts of all kinds, deliveries, ticks, growth, fetch RPCs, restarts, fork switches) with up to 3 crash points drawn over the storage writes of the crash-free run; one history in eight tries every write point. After each crash the client is rebuilt from the store. Every start must succeed, an interrupted set_scripts is applied or not applied, and after a fair drain the index RPC answers equal the reference index (what the crash-free run, executed first, produces).",
+   note="Fixed by this check: D5a-D5e (five crash windows). D20 (C04) histories are excluded by a manifest test.", ref="6/C08"),
  "C16": dict(cat="exploration", technique="stateful property-based testing with a per-hash status model (path check), genuineness of every (transaction, block) pair, and a quiescence check for lost fetches",
    text="Histories of fetch_header / fetch_transaction / get_transaction over on-chain, fork-only and non-existent hashes with fetch / refresh ticks, timeouts, honest answers in any order, corrupted answers (ban), disconnects, growth, a reorg and filter-sync progress. Every RPC answer must follow the status model, fetched data must be byte-identical to the chain's, every committed (transaction, block hash) pair must be real and its header served, and after a fair drain no requested on-chain hash may remain unfetched.",
    note="Known finding D9 (transaction -> block association by height after a reorg). Fixed by this check: D10 (fetch lost after a rejected answer).", ref="6/C16"),
